@@ -5,12 +5,12 @@ def plan(tier):
                 "cfg": "SuffixIndexMC_C04.cfg" if q else "SuffixIndexMC_C04_thorough.cfg",
                 "timeout": 1500, "args": ["-coverage", "1"]}],
         "families": [{"fam": "bwt", "trace": "SuffixIndexTraceBwt", "nfiles": 1, "timeout": 3000}],
-        "required_obligations": ["exhaustive_small", "row_on_checkpoint_and_before", "single_checkpoint", "k64", "k65",
+        "required_obligations": ["exhaustive_small", "exhaustive_raw_strings", "row_on_checkpoint_and_before", "single_checkpoint", "k64", "k65",
                                  "k_gt64_half_boundary", "k_gt64_three_checkpoints", "k_gt64_last_partial_block",
                                  "k_gt64_absent_symbol", "absent_symbol", "invert", "multi_sentinel"],
         "rule": "one run = one (text, alphabet): suffix_array, bwt, less, one full Occ::get table (every row x every "
                 "alphabet symbol and the sentinel) per sampling rate k, invert_bwt; exhaustive over {A,C,$}* $ with all "
-                "k in 1..2n, plus texts of the checkpoint-boundary lengths (1..400; random, unary, periodic, long runs, "
+                "k in 1..2n, every string over {$,A,C} of length <=5 (quick)/7 (thorough) as a raw Occ input with all k, plus texts of the checkpoint-boundary lengths (1..400; random, unary, periodic, long runs, "
                 "multi-sentinel, sentinels 0/'#'/'$', symbols up to 255) with k in {1,2,3,7,8,63,64,65,66,100,128,129,"
                 "(n-1)/2,n-2,n-1,n,2n} and alphabets equal to / larger than the text's (absent symbols, implicit '$')",
         "bounds": {"mc": "Sym={$,a,b}, n<=6 (quick) / 8 (thorough), all k in 1..2n, T=2: build steps + every (r,c) "
